@@ -158,8 +158,8 @@ theorem repo_not_correct_root_zero :
 the property demands 0 for an index outside the slice. -/
 theorem repo_not_correct_neg_index :
     lcAccepts false exNode exVal [seg "L", seg "-1" (some (-1))]
-      (lcM GenCfg.repo false exNode .ptr exVal [seg "L", seg "-1" (some (-1))]) = false ∧
-    lcM GenCfg.repo false exNode .ptr exVal [seg "L", seg "-1" (some (-1))] = .panic := by
+      (lcM GenCfg.original false exNode .ptr exVal [seg "L", seg "-1" (some (-1))]) = false ∧
+    lcM GenCfg.original false exNode .ptr exVal [seg "L", seg "-1" (some (-1))] = .panic := by
   decide
 
 /-- Known finding `lc-struct-stop-panics`: a path that stops on a nested struct with an arm below indexes
